@@ -43,5 +43,37 @@ PROPS = {
         "not_decided": ["IEEE-754 representation of the grid"],
     },
 }
+PROPS.update({
+    "C05": {
+        "level": "proof",
+        "level_text": "holdings after a round equal the endowment folded, in order, with the round's fills (loop invariant over spec folds); one fill conserves the parties' cash and shares, incl. self-trades",
+        "level_note": COMMON_NOTE + "; total-over-all-agents conservation follows from the per-fill lemma by induction over the agent list (meta-level step)",
+        "tasks": ["Simulator._update_agents_for_execution"],
+        "not_decided": ["floating-point rounding of total cash (the property allows it)"],
+    },
+    "C06": {
+        "level": "proof",
+        "level_text": "clock +1 in lock-step for market and books, frame on all eight series for past slots, storage growth keeps filled slots, future access refused, markets stepped once each with index markets last",
+        "level_note": COMMON_NOTE,
+        "tasks": ["Market._update_time", "Market._fill_until", "Market._update_market_price", "Market._extract_data_by_time[prices]", "Market._extract_data_by_time[counters]",
+                  "Market.get_vwap", "Simulator._update_time_on_market", "Simulator._update_times_on_markets", "Market.change_fundamental_price", "OrderBook._set_time"],
+        "not_decided": [],
+    },
+    "C17": {
+        "level": "proof",
+        "level_text": "index value = W(n)/S(n) with W, S the share-weighted folds over the components (loop invariants), for market and fundamental index; component validation; index markets stepped after components",
+        "level_note": COMMON_NOTE,
+        "tasks": ["IndexMarket.compute_market_index", "IndexMarket.compute_fundamental_index", "IndexMarket.get_index", "IndexMarket._add_market",
+                  "Simulator._update_time_on_market", "Simulator._update_times_on_markets"],
+        "not_decided": [],
+    },
+    "C18": {
+        "level": "proof",
+        "level_text": "session parameters incl. deprecated spellings are postconditions of Session.setup for every settings dict",
+        "level_note": COMMON_NOTE + "; JSON values modelled by an uninterpreted sort with tag predicates",
+        "tasks": ["Session.setup"],
+        "not_decided": ["inheritance, count/range expansion, distributions, class lookup: contracts not finished in this commit"],
+    },
+})
 for k in PROPS:
     NOT_CLAIMED.pop(k, None)
